@@ -3,6 +3,7 @@ Functionality to synchronise properties
 """
 
 import ast
+from copy import deepcopy
 from os import path
 
 from doctrans import emit
@@ -132,6 +133,8 @@ def sync_property(
         replacement_node = find_in_ast(list(strip_split(input_param, ".")), input_ast)
 
     assert replacement_node is not None
+    # The same input property may be used for several output properties: never modify (or share) the input's node
+    replacement_node = deepcopy(replacement_node)
     if output_param_wrap is not None:
         if hasattr(replacement_node, "annotation"):
             if replacement_node.annotation is not None:
